@@ -756,6 +756,7 @@ func c15(c *h.Ctx) {
 		c15Deadlines(c, server, 5*time.Second)
 		c15StalledPeer(c, server)
 	}
+	c15CloseWays(c)
 	kinds := []string{"ping", "pong", "close", "xclose", "xclose-partial"}
 	run := 0
 	for _, server := range []bool{true, false} {
@@ -816,6 +817,100 @@ func c15(c *h.Ctx) {
 						c15Run(c, c15Scenario{server: server, nframes: nframes, extra: extra, others: others, slots: slots}, fmt.Sprint(run))
 					}
 				}
+			}
+		}
+	}
+}
+
+// c15CloseWays: the Close frame sent by the WRITING goroutine itself, in each of the ways the API offers (WriteControl,
+// WriteMessage, a prepared message), while other goroutines keep sending pings: once the Close frame is on the wire
+// nothing follows it and every later write — the writer's own and the pingers' — fails with ErrCloseSent.
+func c15CloseWays(c *h.Ctx) {
+	body := ws.FormatCloseMessage(1000, "bye")
+	for _, server := range []bool{false, true} {
+		for way := 0; way < 3; way++ {
+			for round := 0; round < c.N(4, 60); round++ {
+				fake := newWsFake(nil)
+				conn := ws.VerifNewConn(fake, server, 0, c15B, false)
+				in := fmt.Sprintf("close by the writer role=%s way=%s round=%d: WriteMessage(data); Close frame; two goroutines ping throughout", roleStr(server), []string{"WriteControl", "WriteMessage", "WritePreparedMessage"}[way], round)
+				stop := make(chan struct{})
+				var wg sync.WaitGroup
+				lastErr := make([]error, 2)
+				for g := 0; g < 2; g++ {
+					wg.Add(1)
+					go func(g int) {
+						defer wg.Done()
+						defer func() {
+							if p := recover(); p != nil {
+								lastErr[g] = fmt.Errorf("panic: %v", p)
+							}
+						}()
+						for i := 0; i < 5000; i++ {
+							if err := conn.WriteControl(ws.PingMessage, []byte{byte(g)}, time.Now().Add(time.Second)); err != nil {
+								lastErr[g] = err
+								return
+							}
+							select {
+							case <-stop:
+								// keep going a little after the close so that a ping that still gets through is seen
+								if i%7 == 0 {
+									time.Sleep(50 * time.Microsecond)
+								}
+							default:
+							}
+						}
+					}(g)
+				}
+				res := h.Safe(func() string {
+					if err := conn.WriteMessage(ws.BinaryMessage, h.LCGBytes(300+round, uint32(round))); err != nil {
+						return "data: " + err.Error()
+					}
+					var err error
+					switch way {
+					case 0:
+						err = conn.WriteControl(ws.CloseMessage, body, time.Now().Add(time.Second))
+					case 1:
+						err = conn.WriteMessage(ws.CloseMessage, body)
+					default:
+						pm, e := ws.NewPreparedMessage(ws.CloseMessage, body)
+						if e != nil {
+							return "NewPreparedMessage: " + e.Error()
+						}
+						err = conn.WritePreparedMessage(pm)
+					}
+					if err != nil {
+						return "close: " + err.Error()
+					}
+					close(stop)
+					e1 := conn.WriteMessage(ws.TextMessage, []byte("late"))
+					_, e2 := conn.NextWriter(ws.BinaryMessage)
+					e3 := conn.WriteControl(ws.PongMessage, nil, time.Now().Add(time.Second))
+					if e1 != ws.ErrCloseSent || e2 != ws.ErrCloseSent || e3 != ws.ErrCloseSent {
+						return fmt.Sprintf("writes after the Close frame: %v / %v / %v", e1, e2, e3)
+					}
+					return "ok"
+				})
+				select {
+				case <-stop:
+				default:
+					close(stop)
+				}
+				wg.Wait()
+				c.Hold(res == "ok", "after_close.err_close_sent", in, res, "ErrCloseSent for every write after the Close frame")
+				if res == "ok" {
+					c.Hold(lastErr[0] == ws.ErrCloseSent && lastErr[1] == ws.ErrCloseSent, "after_close.err_close_sent", in, fmt.Sprintf("pingers ended with %v / %v", lastErr[0], lastErr[1]), "ErrCloseSent")
+					rep := c.O.Call("ws.parse", roleStr(server), "0", h.Hex(fake.Written()))
+					okWire := strings.HasPrefix(rep, "ok ")
+					if okWire {
+						fs := wsParseFrames(rep[3:])
+						okWire = len(fs) > 0 && fs[len(fs)-1].Op == 8
+						for _, f := range fs[:len(fs)-1] {
+							okWire = okWire && f.Op != 8
+						}
+					}
+					c.Hold(okWire, "after_close.nothing_follows", in, h.Trunc(rep, 300), "whole frames, exactly one Close frame, the last one")
+				}
+				c.Case(fmt.Sprintf("close-ways/%s/way=%d", roleStr(server), way), in, true)
 			}
 		}
 	}
